@@ -214,15 +214,17 @@ impl Transformer {
             decorators,
         } = define_variable;
 
-        for (name, _) in decorator::name_and_aliases(identifier, decorators) {
+        // The aliases are names of the variable as well: they must not be reserved
+        // identifiers or clash with other definitions
+        for (name, _, span) in
+            decorator::name_and_aliases_spans(identifier, *identifier_span, decorators)
+        {
+            if allow_shadowing {
+                self.prefix_parser.add_shadowing_identifier(name, span)?;
+            } else {
+                self.prefix_parser.add_other_identifier(name, span)?;
+            }
             self.variable_names.push(name.to_compact_string());
-        }
-        if allow_shadowing {
-            self.prefix_parser
-                .add_shadowing_identifier(identifier, *identifier_span)?;
-        } else {
-            self.prefix_parser
-                .add_other_identifier(identifier, *identifier_span)?;
         }
         self.transform_expression(expr);
 
